@@ -279,7 +279,19 @@ FIXED_SPECS = [
          names={'first': 'S!$A$1'}, active='S',
          inputs=['S!A1', 'S!C1', 'S!D1'],
          formulas=['S!A2', 'S!B2', 'S!C3', 'S!D3'], ranges=['S!A2:B2']),
+    # formulas whose stored result in the workbook is an empty text, each
+    # read by formulas which have a stored result of their own
+    dict(sheets={'S': {'A1': 0, 'B1': 1, 'A2': '=IF(A1>0,A1,"")',
+                       'B2': '=IF(A2="","",A2&"y")', 'C2': '=A2&"x"&B2',
+                       'D2': '=IF(B1>0,C2,A2)', 'C3': '=LEN(A3)+LEN(B2)'},
+                 'In': {'A1': 5, 'B3': 1}},
+         arrays=[dict(sheet='S', ref='A3:B3', formula='=IF(A1:B1>1,A1:B1,"")')],
+         names={}, active='S', inputs=['S!A1', 'S!B1'],
+         formulas=['S!A2', 'S!B2', 'S!C2', 'S!D2', 'S!A3', 'S!B3', 'S!C3'],
+         ranges=['S!A3:B3']),
 ]
+# (the workbook with stored results is read from a file)
+FIXED_CONFIGS = {3: ['xlsx']}
 SHORT_VALUES = [None, 0, False, 1, True, 5, '']
 
 
@@ -330,7 +342,7 @@ def run_shard(shard, rec):
             # histories without a write, or ending in a write, add nothing
             if not any(s[0] == 'set' for s in hist):
                 continue
-            for config in shard['configs']:
+            for config in FIXED_CONFIGS.get(shard['spec'], shard['configs']):
                 check_case(rec, spec, config, list(hist))
                 n += 1
         rec.exhaustive.append(
